@@ -12,7 +12,7 @@ from prosemirror.model import Fragment, Node, Schema
 
 ID = "C15"
 CORR_MODULE = "Corr.C15"
-LEVEL = "exploration"
+LEVEL = "proof"
 SHARD = 150
 
 
